@@ -19,7 +19,8 @@ CONSTANTS Outcomes,   \* subset of AllOutcomes used by this model instance
           MaxOps
 
 AllOutcomes == {"ok200", "redir302", "raise404", "ret404", "raise503", "raise422inst",
-                "uncaughtVE", "uncaughtKE", "nbraise404", "nbret403"}
+                "uncaughtVE", "uncaughtKE", "nbraise404", "nbret403",
+                "nohdr204"}      \* a Response that carries no Content-Type header at all (204 No Content)
 
 \* SR / SX: the stats application's own read and reset routes (they are routes too: their requests are counted)
 Routes == {"R1", "R2", "R3", "NULL", "SR", "SX"}
@@ -38,14 +39,16 @@ Bucket(o) == CASE o = "ok200"      -> "200"
                [] o = "raise422inst" -> "422"     \* BadRequest(code=422): the code given to the INSTANCE
                [] o = "uncaughtVE" -> "ValueError"
                [] o = "uncaughtKE" -> "KeyError"
+               [] o = "nohdr204"   -> "204"
 
-Buckets == {"200", "302", "403", "404", "405", "422", "503", "ValueError", "KeyError"}
+Buckets == {"200", "204", "302", "403", "404", "405", "422", "503", "ValueError", "KeyError"}
 
 \* what the client sees for an outcome (used by C15 as well)
 StatusOf(o) == CASE o = "ok200" -> 200 [] o = "redir302" -> 302
                  [] o \in {"raise404", "ret404", "nbraise404"} -> 404
                  [] o = "nbret403" -> 403 [] o = "raise503" -> 503 [] o = "raise422inst" -> 422
                  [] o \in {"uncaughtVE", "uncaughtKE"} -> 500
+                 [] o = "nohdr204" -> 204
 
 \* A request: kind "a" (/a/o1/o2), "b" (/b/o1/o2), "m" (GET /m: wrong method),
 \* "mp" (POST /m), "x" (unknown URL /zz)
